@@ -419,10 +419,13 @@ func (b *tableCompactionBuilder) flush() error {
 
 func (b *tableCompactionBuilder) cleanup() error {
 	if b.tw != nil {
-		if err := b.tw.drop(); err != nil {
+		// The writer is unusable once drop has been attempted, even if
+		// removing its file failed: a retry must start a new table.
+		tw := b.tw
+		b.tw = nil
+		if err := tw.drop(); err != nil {
 			return err
 		}
-		b.tw = nil
 	}
 	return nil
 }
